@@ -14,6 +14,12 @@ pub fn add(v: &mut Vec<sut::Cfg>) {
     toy_cfg!(v, U16, U3, "qt", add_ctr32, add_ctr64, add_ctr128, add_belt);
     toy_cfg!(v, U16, U8, "qt", add_ctr32, add_ctr64, add_ctr128, add_belt);
     toy_cfg!(v, U32, U2, "qt", add_ctr32, add_ctr64, add_ctr128);
+    // further sizes / widths so that the quick tier also sees odd sizes, widths 4, 5, 16 and the u8 limit
+    toy_cfg!(v, U7, U4, "qt");
+    toy_cfg!(v, U12, U5, "qt", add_ctr32);
+    toy_cfg!(v, U24, U16, "qt", add_ctr32, add_ctr64);
+    toy_cfg!(v, U64, U4, "qt", add_ctr32, add_ctr64, add_ctr128);
+    toy_cfg!(v, U255, U3, "qt");
     // real ciphers needed by the oracle self-test of every run ('o'); part of the thorough set
     real_cfg!(v, aes::Aes128, "Aes128", "ot", add_ctr32, add_ctr64, add_ctr128, add_belt);
     real_cfg!(v, belt_block::BeltBlock, "BeltBlock", "ot", add_ctr32, add_ctr64, add_ctr128, add_belt);
